@@ -403,6 +403,18 @@ theorem c07_x_inverser_zeroed : inverserSliceOrder = ["bytespool.AcquireLen", "u
 (the guard `SV.FetchArrange.arrange` models) -/
 theorem c07_x_fetch_arrange_guard : fetchArrangeGuards = ["docsByFracs[i][j] != nil"] := by decide
 
+/-- a sealed data provider's pooled unpack caches are handed back exactly once, by the release closure of
+`Sealed.DataProvider` (the model's `dpRelease .sealed`) - never by `Search`/`Fetch` themselves; an object put into the
+`sync.Pool` twice would be shared by two providers alive at the same time -/
+theorem c07_x_sealed_release_once : sealedReleaseSites = ["frac/sealed.go:DataProvider"] := by decide
+
+/-- `FracManager.Append` leaves its retry loop only when the context is done or an `Append` succeeded: a refusal by a
+fraction that was rotated out between `fm.Writer()` and its state check (the model's `appendFail`) is retried on the
+new active fraction, never returned to the client -/
+theorem c07_x_append_retry_loop :
+    fmAppendReturns = ["case <-ctx.Done() -> return ctx.Err()",
+      "err = fm.Writer().Append(docs, metas); err == nil -> return nil"] := by decide
+
 /-- ownership at the enqueue boundary: `Active.Append` only QUEUES the metas for the index worker (`wNew` happens after
 `Bulk` returned), so the in-memory client, whose caller reuses its buffer, must hand over a private copy -/
 theorem c07_x_bulk_owns_metas : inMemoryBulkOrder = ["in.Metas=slices.Clone(in.Metas)", "store.Bulk"] := by decide
